@@ -21,7 +21,8 @@ EXPLANATION = ("Static agreement analysis between btor2::serialize and btor2::pa
 ASSUMPTIONS = ["equivalence beyond positional identity (e.g. of renamed labels) is not decided", "for_each_child order is the writer's child order (T1)"]
 LEVEL_TEXT = ("Exhaustive table composition writer∘reader = identity over all writable variants (not just those occurring in the shipped btor2 files), plus ordering rules on the emission sequence: decides "
               "operator spelling, operand/attribute positions and definition order structurally. Name stability is decided only for the anchoring of the auto-generated-name filter."
-              " No io::Result of the writer is turned into an Option or a default (a failed step would make the writer accept the system and leave something out).")
+              " No io::Result of the writer is turned into an Option or a default (a failed step would make the writer accept the system and leave something out)."
+              " The writer's last-label bookkeeping visits the labelled collections in the order in which their lines are written.")
 LEVEL_NOTE = "Composition uses the checked builder contract (T2) and the reader table of C08; string-level alias bookkeeping is not decided."
 TECHNIQUE = "format-string recovery + table composition (writer row ∘ reader row ∘ builder contract = identity); evaluation-order rules; for-every-element (path-condition) rule per line kind"
 
@@ -339,6 +340,42 @@ def literals(ctx, c):
     ctx.inst("R09.2", "literal:const:reader-radix", radix == 2, g["span"], "the reader parses `const` with radix %s, the writer emits binary digits" % radix)
 
 
+def label_order(ctx, c, six, node):
+    """R09.7: sibling agreement on what "the last label of an expression" means: the reader lets the last label line win, so the writer's
+    bookkeeping of the last label must visit the labelled collections in the order in which serialize_sys emits their lines"""
+    from .. import iterdesc
+    g = ctx.fn_opt("patronus", S + "compute_alias_needed")
+    if g is None:
+        ctx.skipped("R09.7: no compute_alias_needed (the writer keeps no last-label bookkeeping)")
+        return
+    ctx.rule("R09.7", "compute_alias_needed records the last label of an expression by visiting outputs / constraints / bad states in the order in which serialize_sys writes their lines")
+    emitted = [k for k in sorted((k for k in ("output", "constraint", "bad") if k in node), key=lambda k: six.pre[id(node[k])])]
+    gix = Index(g["body"])
+    gdefs = local_defs(g)
+    D = iterdesc.Desc(gix, gdefs)
+    KIND = {"outputs": "output", "constraints": "constraint", "bad_states": "bad"}
+    # the map that receives one insert per labelled element: inserts whose loop runs over collections of the system
+    visited = []
+    for n in gix.nodes:
+        if n.get("k") == "mcall" and n["name"] == "insert" and len(n.get("args", [])) == 2:
+            lp = gix.enclosing(n, ("for",))
+            if lp is None:
+                continue
+            alts, _ = D.source(lp["iter"])
+            seq = []
+            for a in alts:
+                flat = str(a)
+                hit = [kind for coll, kind in KIND.items() if "sys.%s'" % coll in flat or "sys.%s\"" % coll in flat]
+                seq.append(hit[0] if len(hit) == 1 else "?")
+            if seq and all(x_ != "?" for x_ in seq):
+                visited.append((gix.pre[id(lp)], seq))
+    order_ = [k for _, seq in sorted(visited) for k in seq]
+    ok = bool(order_) and order_ == emitted
+    ctx.inst("R09.7", "last-label-order", ok, g["span"],
+             "compute_alias_needed visits the labelled collections in the order %s, serialize_sys writes their lines in the order %s: for an expression labelled by two kinds of line the writer and the reader disagree on which label is the last one, and a name is lost or changed on re-reading" % (order_, emitted),
+             sample={"bookkeeping": order_, "emitted": emitted})
+
+
 def order(ctx, c):
     f = ctx.fn("patronus", SER + "serialize_sys")
     ix = Index(f["body"])
@@ -360,6 +397,7 @@ def order(ctx, c):
         return
     node = {k: v[0][0]["node"] for k, v in kinds.items()}
     toks = {k: v[0][1] for k, v in kinds.items()}
+    label_order(ctx, c, ix, node)
 
     def loop_of(n):
         l = ix.enclosing(n, ("for",))
